@@ -181,7 +181,7 @@ fn main() {
             let k = got.iter().zip(w.frames.iter()).position(|(a, b)| a != b).unwrap_or(got.len().min(w.frames.len()));
             out.viol("clean-concat-wrong", &format!("clean concatenation of {} frames reads back {} frames then {}; first difference at frame {}", w.frames.len(), got.len(), end.tag(), k), &base);
         }
-        if cases < scale(if thorough { 600 } else { 120 }) && w.bytes.len() < 3000 {
+        if cases < scale(if thorough { 600 } else { 120 }) && w.bytes.len() < 3000 && w.frames.iter().map(|f| f.samples.len()).sum::<usize>() <= MODEL_MAX_SAMPLES {
             cases += 1;
             out.case(dec_subset_case(&w.bytes, &[("src", esc("stream_writer"))]));
         }
